@@ -64,6 +64,10 @@ DOC = [
        [("setv", "res1", ("lfor", "lfor", [("for", "x", 3)], ("call", ("fn", [], [("ref", "r1", "x")]), []))),
         ("setv", "res2", ("lfor", "lfor", [("for", "x", 2)], ("lfor", "lfor", [("for", "y", 2)], ("ref", "r2", "x")))),
         ("ref", "r3", "x")])]),
+    ("witness:first iterable names the let-bound variable that the form rebinds",
+     [("let", [("x", ("lit", 2))],
+       [("setv", "res1", ("lfor", "lfor", [("for", "x", ("rng", ("ref", "r1", "x")))], ("ref", "r2", "x"))),
+        ("ref", "r3", "x")])]),
     ("witness:class attribute hides let binding",
      [("let", [("x", ("lit", 1))],
        [("class", "C1", [("x", 2)], [("defn", "m", ["self"], [("ref", "r1", "x")])]), ("callm", "C1", "m")])]),
@@ -89,9 +93,14 @@ def run(chk):
     g6 = sp.Gen(chk.rng, "c06")
     for i in range(16000 if thorough else 600):
         labelled.append(("c06:%d" % i, g6.program()))
+    for i in range(400 if thorough else 25):
+        labelled.append(("scenario-hoist:%d" % i, g6.scenario("hoist")))
+        labelled.append(("scenario-default-lambda:%d" % i, g6.scenario("default-lambda")))
     chk.rule = ("programs = the documentation's let examples + seeded random programs with up to 4 nested binding constructs "
                 "(let with 1-2 sequential bindings, defn, fn stored and called later, lfor with own variables and setx, "
-                "setv/setx, a few classes) over the names x y z, at module level and inside a function; every reference "
+                "setv/setx, a few classes, defn of pool names (hoisting), parameter defaults that are lambdas, first iterables that "
+                "read a name; plus randomly filled scenarios: defn of a name an outer let binds written inside an inner let, "
+                "lambda default with a parameter spelled like a let-bound name) over the names x y z, at module level and inside a function; every reference "
                 "is logged. Each is (a) compiled with the scope classes instrumented -> machine correspondence, walk "
                 "correspondence, refinement instance; (b) executed and compared with the lexical reference interpreter "
                 "(log, exception kind, module globals). non-trivial = distinct program containing a let")
